@@ -53,6 +53,26 @@ def generalize(path: str) -> str:
     return '/'.join(out)
 
 
+def type_scores(x):
+    n = 0
+    if isinstance(x, dict):
+        m = x.get('meta')
+        if isinstance(m, dict) and isinstance(m.get('confidenceScore'), str):
+            v = m['confidenceScore']
+            try:
+                if repr(float(v)) == v:
+                    m['confidenceScore'] = float(v)
+                    n += 1
+            except ValueError:
+                pass
+        for v in x.values():
+            n += type_scores(v)
+    elif isinstance(x, (list, tuple)):
+        for v in x:
+            n += type_scores(v)
+    return n
+
+
 def parse_describe(text):
     """Counts printed by Lexicon.describe()."""
     out = {}
@@ -79,12 +99,13 @@ class Sim:
     """One simulated run."""
 
     def __init__(self, universe, seed, prop, oracles=(), budget=DEFAULT_BUDGET):
-        self.u = universe
         self.seed = seed
         self.prop = prop
         self.oracles = set(oracles)
         self.W = World(seed)
         self.m = Model(universe)
+        # (the lexicon documents are the model's: a re-release swaps one of them)
+        self.u = dict(universe, lexicons=self.m.docs)
         self.models = {'primary': self.m}       # one model per data directory (node)
         self.budget = budget
         self.step = -1
@@ -186,6 +207,11 @@ class Sim:
                 self.probe('mem-resource-reused')
             else:
                 resource = wn.lmf.load(path, progress_handler=SimHandler)
+                if self.W.typed_scores:
+                    # the caller edits what it loaded: confidence scores as the floats
+                    # lmf.Metadata declares (only where the float prints as the same text)
+                    if type_scores(resource):
+                        self.probe('mem-resource-float-scores')
                 if key is not None:
                     cache[key] = resource
             wn.add_lexical_resource(resource, progress_handler=SimHandler)
@@ -301,6 +327,16 @@ class Sim:
                                      'file ends with a status/definition that is none of its '
                                      'lines', {'ili': k, 'observed': got.get(k), 'lines': cands})
             self.m.ilis[k]['status'], self.m.ilis[k]['definition'] = got[k]
+
+    def op_rerelease(self, op):
+        """Other content is published under the id:version of a lexicon that is not
+        installed (any more): from now on resources carry the new content."""
+        if self.m.rerelease(op['spec']):
+            self.probe('rerelease')
+            self.__dict__.pop('_mem_resources', None)
+            self.W.log(step=self.step, outcome='rereleased')
+        else:
+            self.W.log(step=self.step, outcome='skipped')
 
     def op_switch(self, op):
         """The caller points wn.config.data_directory at another data directory (optionally
